@@ -17,7 +17,7 @@ RULE = ("documents assembled from ~V first + a random permutation of ~W, ~C, ~P,
         "other section, the genuine items of its own section and the genuine curves' data unchanged. CORRESPONDENCE: model rd.header vs "
         "lasio.read(text, ignore_data=True, mnemonic_case, ignore_header_errors) on the same documents, on 'wild' mutations of them (indented / "
         "hostile / duplicate titles, hostile VERS and DLM values, duplicated and case-variant steering mnemonics, junk lines, LASF, no sections) "
-        "and on every file of tests/examples. non-trivial = >= 5 sections in non-standard order or a non-default title spelling / a mutation")
+        "on every sequence of <= 3 (thorough: 4) lines over a 15-line vocabulary (exhaustive) and on every file of tests/examples. non-trivial = >= 5 sections in non-standard order or a non-default title spelling / a mutation")
 TRUSTED = ["header-level only: the data rows are covered by the oracle on the real code here and by the data-path model of C02/C07",
            "item values are compared as raw text through the real SectionParser.num (num itself is C08's model)"]
 ASSUMPTIONS = ["text uses only characters on which the model's upper/lower/isspace tables agree with Python (checked per character by the harness)",
@@ -107,19 +107,29 @@ def gen_wild(rng):
 
 
 # ---------------------------------------------------------------------------------------------- oracle on the real code
-def classify(failure):
-    """known-finding id of a failure: an empty data section (title directly followed by another title) that is not the last
-    line of the file: the data loops test `line_no == end` only after reading a line and read on to the end of the file"""
-    c = failure["case"]
-    for key in ("text", "permuted", "planted"):
-        t = c.get(key)
-        if t:
-            n = len(ld.split_lines(t))
-            for a, b, _, k in ld.real_sections_scan(t):
-                if k == "data" and a == b and b < n - 1:
-                    return "empty-data-section-reads-on"
-    return None
+# inputs of fixed findings, re-run through the oracle first on every run: (text, expected curves data, expected per-key mnemonics)
+FIXED_INPUTS = [
+    # empty ~A followed by another section read the rest of the file as data (fixed in /repo 965fe63)
+    ("~V\nVERS. 2.0 : x\nWRAP. NO : y\n~C\nA.M : curve\n~A\n~P\nX. 5 : d\n", [["A", []]], {"Curves": ["A"], "Parameter": ["X"]}),
+    ("~V\nVERS. 2.0 : x\nWRAP. NO : y\n~A\n~C\nA.M : curve\nB.M : curve\n~O\n1 2\n3 4\n", [["A", []], ["B", []]],
+     {"Curves": ["A", "B"], "Other": "1 2\n3 4"}),
+]
 
+
+def fixed_inputs(run, batch):
+    for text, data, keys in FIXED_INPUTS:
+        for engine in ("numpy", "normal"):
+            case = {"text": text, "engine": engine, "fixed_input": True}
+            run.case(case, nontrivial=True, tags=["fixed-input"])
+            r = ld.read_full(text, engine=engine)
+            ok = "ok" in r and r["ok"]["data"] == data
+            if ok:
+                for k, v in keys.items():
+                    got = r["ok"]["sections"].get(k)
+                    ok = ok and (got == v if isinstance(v, str) else [i[0] for i in got] == v)
+            if not ok:
+                run.fail("fixed-input", case, r)
+        batch.add("fixed-input", text, False, "upper")
 
 
 def data_ok(secs, dump):
@@ -246,8 +256,7 @@ class Batch:
                 continue
             run.dist["compared"] += 1
             real = ld.read_real_header(text, ig, c)
-            v, w = ld.count_vw(text)
-            d = ld.header_diff(m, real, multi_vw=(v > 1 or w > 1))
+            d = ld.header_diff(m, real)
             if d:
                 run.disagree(stream + ":" + d, {"text": text, "ignore": ig, "case": c}, m, real, in_domain=indom)
             else:
@@ -278,6 +287,7 @@ def corpus_texts():
 def run(run):
     rng = run.rng
     batch = Batch(run)
+    fixed_inputs(run, batch)
     # (1) generated documents: oracle on the real code + correspondence
     for n in range(run.budget(1500, 40000)):
         spell = None if n % 3 else (n // 3) % 7
@@ -322,6 +332,18 @@ def run(run):
             continue
         run.case({"text": text}, nontrivial=True, tags=["wild"] + ["wild:" + t for t in tags])
         batch.add("wild", text, rng.random() < 0.5, rng.choice(["upper", "preserve", "lower"]))
+    # (3b) small scope, exhaustive: every sequence of up to L lines over a 15-line vocabulary
+    vocab = ["~V", "~W", " ~O", "~o", "~A", "~x y", "VERS. 1.2 : v", "NULL. 5 : n", "A.B 1 : d", "junk", "", "# c", "DLM. TAB : d", "~", "WRAP. NO : w"]
+    n_small = 0
+    for L in range(1, run.budget(3, 4) + 1):
+        for tup in itertools.product(vocab, repeat=L):
+            text = "\n".join(tup) + ("\n" if n_small % 3 else "")
+            n_small += 1
+            run.evaluations += 1
+            if n_small % 53 == 0:
+                run.case({"text": text}, nontrivial=True, tags=["small-scope-sample"])
+            batch.add("small-scope", text, n_small % 2 == 0, ("upper", "preserve", "lower")[n_small % 3])
+    run.dist["small-scope"] = n_small
     # (4) corpus
     for name, txt in corpus_texts():
         if not ld.in_sigma(txt):
@@ -353,6 +375,12 @@ def search(run, disagreements):
 def replay(run, payload):
     c = payload["case"]
     clause = payload["clause"]
+    if clause == "fixed-input":
+        for text, data, keys in FIXED_INPUTS:
+            if text == c["text"]:
+                r = ld.read_full(text, engine=c["engine"])
+                return "ok" in r and r["ok"]["data"] == data
+        return True
     if clause == "perm":
         a, b = ld.read_full(c["text"]), ld.read_full(c["permuted"])
         return "ok" in a and "ok" in b and a["ok"] == b["ok"]
